@@ -810,7 +810,14 @@ func (c *ctx) nilProbe() {
 	}
 	e.Val = []int{
 		code(func() error { return r.Close() }),
-		code(func() error { calls := 0; r.Range(func(int, *lazyproto.FieldData) bool { calls++; return true }); if calls > 0 { return fmt.Errorf("visited") }; return nil }),
+		code(func() error {
+			calls := 0
+			r.Range(func(int, *lazyproto.FieldData) bool { calls++; return true })
+			if calls > 0 {
+				return fmt.Errorf("visited")
+			}
+			return nil
+		}),
 		code(func() error { _, err := r.FieldData(1); return err }),
 		code(func() error { _, err := r.FieldData(); return err }),
 		code(func() error { _, err := r.GetFieldData(1); return err }),
